@@ -62,6 +62,7 @@ type profile struct {
 	rotReg    int  // at least this many regular voting certificates rotated
 	rotRoot   int  // at least this many roots rotated
 	rotSens   int  // (sensitive only) at least this many sensitive voting certificates rotated
+	rotVote   bool // (sensitive only) the rotated sensitive certificates are among the voters
 }
 
 // pick chooses k distinct elements of from (tape-driven), keeping the order of from.
@@ -148,7 +149,6 @@ func (g *gov) genUpdate(pred *trcSpec, now time.Time, pf profile) *trcSpec {
 	s.serial = pred.serial + 1
 	s.nb, s.dur = now, 400*day
 	s.grace = time.Duration(1+r.Choice("upd.grace", 48)) * time.Hour
-	s.extraSigs = false
 	rotate := func(cls class, atLeast int, label string) []int {
 		idx := pred.indices(cls)
 		k := atLeast
@@ -175,7 +175,10 @@ func (g *gov) genUpdate(pred *trcSpec, now time.Time, pf profile) *trcSpec {
 		return s
 	}
 	s.note = "sensitive"
-	rotate(clsSens, pf.rotSens, "upd.rotsens")
+	rotSens := rotate(clsSens, pf.rotSens, "upd.rotsens")
+	if !pf.rotVote {
+		rotSens = nil
+	}
 	rotate(clsReg, pf.rotReg, "upd.rotreg")
 	rotate(clsRoot, pf.rotRoot, "upd.rotroot")
 	if !pf.plain {
@@ -244,7 +247,7 @@ func (g *gov) genUpdate(pred *trcSpec, now time.Time, pf profile) *trcSpec {
 	if maxQ := min(len(s.indices(clsSens)), len(s.indices(clsReg))); s.quorum > maxQ {
 		s.quorum = maxQ
 	}
-	g.finish(pred, s, clsSens, nil, pf.plain)
+	g.finish(pred, s, clsSens, rotSens, pf.plain)
 	return s
 }
 
@@ -263,7 +266,7 @@ func without(l []int, v int) []int {
 // forgeRules lists the single-rule violations the adversary can produce for an update. Rules whose name starts with
 // "id." change the TRC identifier; all others keep the identifier of the honest successor.
 var forgeRules = []string{
-	"vote.nosig", "votes.few", "votes.dup", "votes.mixed", "votes.root", "votes.range",
+	"vote.nosig", "vote.newcert", "votes.few", "votes.lowquorum", "votes.dup", "votes.mixed", "votes.root", "votes.range",
 	"flag.noreset", "sig.wrongkey", "sig.transplant", "new.nosig",
 	"reg.quorum", "reg.core", "reg.auth", "reg.sens.rotate", "reg.sens.add", "reg.sens.remove",
 	"reg.root.add", "reg.root.remove", "reg.root.swap", "reg.voter.add", "reg.voter.remove", "reg.voter.swap",
@@ -305,6 +308,26 @@ func (g *gov) forge(pred *trcSpec, rule string, now time.Time) *trcSpec {
 	case "votes.few":
 		s = anyPlain()
 		for len(s.votes) >= pred.quorum {
+			dropSig(s, pred.certs[s.votes[len(s.votes)-1]])
+			s.votes = s.votes[:len(s.votes)-1]
+		}
+	case "vote.newcert":
+		// a rotated sensitive voter "votes" with its new certificate only: the vote index names the predecessor's
+		// certificate, which did not sign
+		s = g.genUpdate(pred, now, profile{sensitive: true, plain: true, rotSens: 1, rotVote: true})
+		for _, v := range s.votes {
+			if s.certs[v] != pred.certs[v] {
+				dropSig(s, pred.certs[v])
+			}
+		}
+	case "votes.lowquorum":
+		// a sensitive update lowers the quorum and carries only as many votes as the NEW quorum asks for
+		if pred.quorum < 2 {
+			return nil
+		}
+		s = plainOf(true)
+		s.quorum = pred.quorum - 1
+		for len(s.votes) > s.quorum {
 			dropSig(s, pred.certs[s.votes[len(s.votes)-1]])
 			s.votes = s.votes[:len(s.votes)-1]
 		}
@@ -556,6 +579,97 @@ func (g *gov) forge(pred *trcSpec, rule string, now time.Time) *trcSpec {
 		infra("unknown forge rule %s", rule)
 	}
 	s.note = "forged." + rule
+	return s
+}
+
+// mutate takes an unconstrained honest successor of pred and applies one to three primitive edits (votes, signatures,
+// certificates, quorum). Unlike forge it makes no claim about the result: the reference judge alone labels it, and
+// some results are still valid (e.g. a vote beyond the quorum withdrawn together with its signature). This is where
+// combinations of partially replaced certificate sets with odd vote lists and signer sets come from.
+func (g *gov) mutate(pred *trcSpec, now time.Time) *trcSpec {
+	r := g.r
+	s := g.genUpdate(pred, now, profile{sensitive: r.Choice("mut.type", 2) == 1})
+	n := 1 + r.Choice("mut.count", 3)
+	note := ""
+	for k := 0; k < n; k++ {
+		switch r.Choice("mut.op", 8) {
+		case 0: // withdraw a vote together with its signature
+			if len(s.votes) == 0 {
+				continue
+			}
+			i := r.Choice("mut.which", len(s.votes))
+			v := s.votes[i]
+			s.votes = append(append([]int(nil), s.votes[:i]...), s.votes[i+1:]...)
+			if v >= 0 && v < len(pred.certs) && !contains(s.votes, v) {
+				// (a replaced root's acknowledgement or anything else by that certificate goes too: same signer)
+				dropSig(s, pred.certs[v])
+			}
+			note += "-vote"
+		case 1: // one more vote, signed by the certificate the index names
+			v := r.Choice("mut.which", len(pred.certs))
+			if !contains(s.votes, v) {
+				has := false
+				for _, x := range s.sigs {
+					has = has || x.sid == pred.certs[v]
+				}
+				if !has {
+					s.sigs = append(s.sigs, sigSpec{sid: pred.certs[v], key: pred.certs[v]})
+				}
+			}
+			if r.Choice("mut.front", 2) == 1 {
+				s.votes = append([]int{v}, s.votes...)
+			} else {
+				s.votes = append(s.votes, v)
+			}
+			note += "+vote"
+		case 2: // a signature disappears
+			if len(s.sigs) == 0 {
+				continue
+			}
+			dropSig(s, s.sigs[r.Choice("mut.which", len(s.sigs))].sid)
+			note += "-sig"
+		case 3: // a signature is made with a key nobody certified
+			if len(s.sigs) == 0 {
+				continue
+			}
+			i := r.Choice("mut.which", len(s.sigs))
+			k := s.sigs[i].sid
+			k.ver += 100
+			s.sigs[i].key = k
+			note += "~sig"
+		case 4, 5: // one more certificate is replaced; its new (voting) version signs or not, its old (root) version too
+			i := r.Choice("mut.which", len(s.certs))
+			old := s.certs[i]
+			if !inPred(pred, old) {
+				continue // already new
+			}
+			s.certs[i].ver++
+			if r.Choice("mut.signs", 3) != 0 {
+				if old.cls == clsRoot {
+					if pred.certs[s.votes[0]].cls == clsReg {
+						s.sigs = append(s.sigs, sigSpec{sid: old, key: old})
+					}
+				} else {
+					s.sigs = append(s.sigs, sigSpec{sid: s.certs[i], key: s.certs[i]})
+				}
+			}
+			note += "~" + old.cls.String()
+		case 6: // the quorum moves
+			maxQ := min(len(s.indices(clsSens)), len(s.indices(clsReg)))
+			q := 1 + r.Choice("mut.quorum", maxQ)
+			if q != s.quorum {
+				s.quorum = q
+				note += "~quorum"
+			}
+		case 7: // the trust-reset flag flips
+			s.noReset = !s.noReset
+			note += "~flag"
+		}
+		if len(s.votes) == 0 {
+			break
+		}
+	}
+	s.note = "mutated." + s.note + note
 	return s
 }
 
